@@ -26,7 +26,7 @@ def _run(args):
             t = open(cp).read().strip().split(" ")
             if len(t) >= 2 and t[0].replace("-w", "") in PAIRS:
                 lay = PAIRS[t[0].replace("-w", "")]
-                r["crash"] = f"vec {lay[0]} {lay[1]} {lay[2]} {lay[3]} {t[1]} " + " ".join(t[2:])
+                r["crash"] = f"vec {lay[0]} {lay[1]} {lay[2]} {lay[3]} {t[1]} " + " ".join(t[2:]) + (" pair=pad" if t[0] == "pad" else "")
                 r["profile"] = prof
         return r
     with open(os.path.join(outdir, "req.txt")) as fin, open(os.path.join(outdir, "model.txt"), "w") as fout:
@@ -66,7 +66,7 @@ def run(seed, tier):
 
 
 FAIL = {"e", "p1", "p2", "p3"}
-PAIRS = {"plain": (8, 4, 8, 4), "heap": (16, 8, 16, 8), "big": (4096, 8, 4096, 8), "over": (64, 64, 64, 64), "ne-size": (8, 4, 16, 8),
+PAIRS = {"plain": (8, 4, 8, 4), "pad": (8, 4, 8, 4), "heap": (16, 8, 16, 8), "big": (4096, 8, 4096, 8), "over": (64, 64, 64, 64), "ne-size": (8, 4, 16, 8),
          "ne-align": (16, 4, 16, 8), "ne-both": (8, 4, 16, 16), "ne-heap": (16, 8, 8, 4), "ne-align-down": (16, 8, 16, 4),
          "ne-align-down2": (16, 16, 16, 8), "ne-size-down": (16, 8, 8, 4)}
 
